@@ -101,7 +101,7 @@ class LineFailpoints:
         self.count = n + 1
         if self.arm_at is not None and n == self.arm_at and not self.fired and not self._is_with_line(code, line):
             self.fired = True
-            self.fired_at = (code.co_filename.replace(self.prefix, ""), line, code.co_name)
+            self.fired_at = (code.co_filename.replace(self.prefix, ""), line, code.co_name, line - code.co_firstlineno)
             raise InjectedFault(f"injected fault at library line event #{n} ({self.fired_at[0]}:{line} in {code.co_name})")
         return None
 
